@@ -1,6 +1,7 @@
 package num
 
 import (
+	"encoding/json"
 	"errors"
 	"fmt"
 	"math"
@@ -385,8 +386,13 @@ func (a *Amount) UnmarshalJSON(value []byte) error {
 }
 
 func unquote(value []byte) []byte {
-	// If the amount is quoted, strip the quotes
+	// If the amount is quoted, decode the JSON string so that escaped
+	// characters are also supported.
 	if len(value) > 2 && value[0] == '"' && value[len(value)-1] == '"' {
+		var str string
+		if err := json.Unmarshal(value, &str); err == nil {
+			return []byte(str)
+		}
 		value = value[1 : len(value)-1]
 	}
 	return value
